@@ -292,19 +292,64 @@ def set_policy(p):
 
 
 # ----------------------------------------------------------------- in-place model
+def _layout(a):
+    if a.flags.f_contiguous and a.flags.c_contiguous:
+        return 'CF'
+    if a.flags.f_contiguous:
+        return 'F'
+    return 'C' if a.flags.c_contiguous else 'N'
+
+
+def calibrate_overwrite():
+    """run the REAL scipy routines with overwrite flags on float arrays of every (layout, dtype, size class) and
+    record whether the input buffer changed.  The in-place model below uses this measured table."""
+    import scipy.linalg as sl
+    rng = _np.random.RandomState(7)
+    tab = {}
+    fns = {
+        'svd': lambda x: sl.svd(x, full_matrices=False, overwrite_a=True, check_finite=False),
+        'qr': lambda x: sl.qr(x, overwrite_a=True, mode='economic', check_finite=False),
+        'rq': lambda x: sl.rq(x, overwrite_a=True, mode='economic', check_finite=False),
+        'solve_a': lambda x: sl.solve(x, _np.ones((x.shape[0], 1), dtype=x.dtype), overwrite_a=True, overwrite_b=True, check_finite=False),
+        'lu_factor': lambda x: sl.lu_factor(x, overwrite_a=True, check_finite=False),
+        'eig': lambda x: sl.eig(x, overwrite_a=True, check_finite=False),
+        'eigh': lambda x: sl.eigh(x, overwrite_a=True, check_finite=False),
+    }
+    for cplx in (False, True):
+        for (m, n) in ((3, 1), (1, 3), (3, 2), (2, 3), (2, 2), (1, 1)):
+            for order in ('C', 'F'):
+                base = rng.rand(m, n) + (1j * rng.rand(m, n) if cplx else 0) + (2 * _np.eye(m, n))
+                for what, fn in fns.items():
+                    if what in ('solve_a', 'lu_factor', 'eig', 'eigh') and m != n:
+                        continue
+                    x = base
+                    if what == 'eigh':
+                        x = base + base.conj().T
+                    x = _np.array(x, order=order)
+                    x0 = x.copy()
+                    try:
+                        fn(x)
+                    except Exception:
+                        continue
+                    key = (what, _layout(x), cplx, m == 1 and n == 1 if what in ('solve_a', 'lu_factor', 'eig', 'eigh') else False)
+                    tab[key] = tab.get(key, False) or (not _np.array_equal(x, x0))
+    return tab
+
+
 def _maybe_overwrite(a_orig, flag, what):
     """SciPy hands an F-contiguous float/complex buffer straight to LAPACK when
-    overwrite_a=True; the buffer then holds junk.  Model: havoc in place."""
+    overwrite_a=True; the buffer then holds junk.  Model: havoc in place (measured table)."""
     p = policy()
     if not (flag and p.model_overwrite):
         return
-    if not isinstance(a_orig, SymArray):
+    if not isinstance(a_orig, SymArray) or a_orig.ndim != 2:
         return
     tab = p.overwrite_table or {}
-    lay = 'F' if a_orig.flags.f_contiguous else ('C' if a_orig.flags.c_contiguous else 'N')
-    if a_orig.flags.f_contiguous and a_orig.flags.c_contiguous:
-        lay = 'CF'
-    if not tab.get((what, lay), lay in ('F', 'CF')):
+    lay = _layout(a_orig)
+    one = (a_orig.shape == (1, 1)) if what in ('solve_a', 'lu_factor', 'eig', 'eigh') else False
+    default = lay in ('F', 'CF') and not one
+    base = {'solve_b': 'solve_a', 'lu_solve_b': 'solve_a'}.get(what, what)
+    if not tab.get((base, lay, a_orig.kind == 'c', one), default):
         return
     junk = symarray(state.fresh('JUNK'), a_orig.shape, a_orig.kind == 'c')
     _np.ndarray.__setitem__(a_orig, Ellipsis, junk.plain())
